@@ -45,7 +45,7 @@ def scan_forbidden():
 
 
 EXTRA_MODULES = {"C01": ["C01c", "H1", "Ctl", "ExportGen"], "C02": ["H1", "Ctl"], "C04": ["C04c", "Ctl", "NomGen"], "C05": ["Ctl", "NomGen"], "C06": ["C06Refine", "C06c", "H1", "Ctl", "NomGen"], "C07": ["C07b", "C07c", "H1", "Ctl"],
-                 "C08": ["C08b"], "C09": ["Ctl", "ExportGen"], "C10": ["Ctl", "ExportGen"], "C11": ["Ctl"], "C12": ["H1", "Ctl"], "C13": ["C13b"], "C14": ["C14b", "H1", "Ctl"], "C15": ["C15b", "Ctl"],
+                 "C08": ["C08b"], "C09": ["Ctl", "ExportGen"], "C10": ["Ctl", "ExportGen"], "C11": ["Ctl"], "C12": ["H1", "Ctl"], "C13": ["C13b", "C13c"], "C14": ["C14b", "H1", "Ctl"], "C15": ["C15b", "Ctl"],
                  "C16": ["C16b", "C16c", "SerdeGen", "H1"], "C17": ["C17b", "Ctl"]}
 SHARED_MODULES = {"H1", "Ctl", "ExportGen", "NomGen"}                     # modules holding theorems of several properties: only the `Cnn_…` ones count for Cnn     # further theorem files that belong to a property
 
@@ -318,6 +318,17 @@ def main():
             found = search_neighbourhood(pid, cfg, binp, ops, [], workdir, rng, known, deep=True)
             p = found or write_replay(workdir, "%s-obligation.json" % pid, dict(what, what="proof obligation of Props/%s.lean no longer checks against the regenerated model" % pid))
             violations.append((p, "" if found else "no-failing-input-found"))
+        elif tsum.get("fallback") and not args.replay:
+            # part of the source has a shape the translator does not read: the model kept the recorded value for it, so the theorems
+            # speak about the code only as far as the correspondence reaches — widen the search before accepting the run
+            found = search_neighbourhood(pid, cfg, binp, ops, [], workdir, rng, known, deep=True)
+            notes.append("translator fallback (%s): deep neighbourhood search %s" % (",".join(tsum["fallback"]), "found a failing input" if found else "found nothing"))
+            if found:
+                violations.append((found, ""))
+            elif search_neighbourhood.last_disagree:
+                sc, v = search_neighbourhood.last_disagree[0]
+                p = write_replay(workdir, "%s-correspondence-deep.json" % pid, {"property": pid, "what": "model/implementation correspondence no longer checks on view %s (deep search after a translator fallback)" % cfg["view"], "differs": v.get("diff"), "verdict": strip(v), "ops": sc})
+                violations.append((p, "no-failing-input-found"))
     if os.environ.get("NF_HARVEST") == "1":
         # (maintenance only, never part of a registered command) save a small witness scenario per finding
         for k in known:
@@ -469,14 +480,21 @@ def search_neighbourhood(pid, cfg, binp, ops, disagree, workdir, rng, known, dee
     if not scens and not extra:
         return None
     try:
-        ops2, verdicts2, _ = run_pipeline(binp, scens + extra, workdir, "search", mutate_per=(1 if deep else 6), rng=rng)
+        # byte mutation only where the property's own families are run with it: a relational scenario (twin parsers compared by an
+        # assert_* operation) means something else once one twin's buffer is mutated, and would "fail" for no reason the property gives
+        mp = (1 if deep else 6) if cfg.get("mutate_per") else 0
+        ops2, verdicts2, _ = run_pipeline(binp, scens + extra, workdir, "search", mutate_per=mp, rng=rng)
     except Exception:
         return None
     st = analyse(pid, cfg, ops2, verdicts2, known)
+    search_neighbourhood.last_disagree = [(scenario_of(ops2, line), v) for line, v in st["disagree"][:1]]
     if st["oracle_fail_unlisted"]:
         line, v = st["oracle_fail_unlisted"][0]
         return write_replay(workdir, "%s-found-%d.json" % (pid, line), {"property": pid, "what": "property predicate false on the real crate's output (found by neighbourhood search)", "verdict": strip(v), "ops": scenario_of(ops2, line)})
     return None
+
+
+search_neighbourhood.last_disagree = []
 
 
 def finish(pid, tier, seed, t0, cfg, names, discharged, evaluations, stats, crashes, nviol, notes, axioms, forbidden, tsum=None):
